@@ -2,6 +2,7 @@ import Driver.Core
 import Driver.Pure
 import Driver.Vdb
 import Driver.Ledger
+import Driver.Contracts
 /-
 One line per handler object. The first handler that understands a line answers it.
 -/
@@ -11,7 +12,8 @@ def registry : List Obj := [
   pureObj purePow,
   pureObj pureRpc,
   vdbObj,
-  ledgerObj
+  ledgerObj,
+  contractObj
 ]
 
 end ZV.Driver
